@@ -140,6 +140,23 @@ func c06inputs(c *Ctx) []c06input {
 				// drop the entry / duplicate it / use its value under another label
 				mk := append(append([]gen.KeyEntry{}, key[:i]...), key[i+1:]...)
 				add("key-drop", refcbor.Encode(gen.KeyMap(mk)))
+				// two entries replaced at once (e.g. y as a bool together with an off-curve x)
+				if round%3 == 1 {
+					smallZoo := []*Node{refcbor.NBool(true), refcbor.NBool(false), refcbor.NNull(), refcbor.NInt(1), refcbor.NBstr([]byte{}), refcbor.NTstr("x")}
+					for j := range key {
+						if j == i {
+							continue
+						}
+						for _, a := range smallZoo {
+							for zi := len(zoo) - 17; zi < len(zoo); zi += 2 {
+								mk2 := append([]gen.KeyEntry{}, key...)
+								mk2[i] = gen.KeyEntry{Label: key[i].Label, Value: a}
+								mk2[j] = gen.KeyEntry{Label: key[j].Label, Value: zoo[zi]}
+								add("key-pair-grid", refcbor.Encode(gen.KeyMap(mk2)))
+							}
+						}
+					}
+				}
 				// drop one entry and replace another (e.g. seed-only OKP key with a wrong-length d)
 				if round%2 == 0 {
 					for j := range mk {
